@@ -363,6 +363,28 @@ def run_trace(ctx, rows, bait, trace):
             for pr in held:
                 pr.improves(1)
                 ctx.count("direct:held-premise-consulted-after-an-operation")
+    if (bait[2] + len(rows)) % 4 == 0:
+        # the same Scaffold object gets a new first row (everything moves along) and is indexed in a new
+        # assembly; a result born there, and what the operations make of it, is consistent with the scaffold as it is now
+        sc = ia.scaffold_by_name("s")
+        shift = 1 + (bait[3] % 50)
+        sc.rows.insert(0, Fragment("front", 1, shift, 1))
+        try:
+            ia2 = IndexedAssembly("again", scaffolds=[sc])
+            r2 = ia2.find_overlaps(Fragment("s", bait[2], bait[3] + shift, bait[4], tuple(bait[5])))
+        except Exception:  # noqa: BLE001 - C12's business
+            ctx.count("direct:lookup-raised")
+            return
+        ctx.count("direct:result-born-from-an-edited-scaffold-indexed-again")
+        if r2 is not None:
+            for op, arg in trace[:3]:
+                if not r2.rows:
+                    break
+                try:
+                    apply_op(r2, op, arg)
+                except Exception as e:  # noqa: BLE001
+                    ctx.count(f"direct:op-raised:{op}:{type(e).__name__}")
+                    break
 
 
 def run_direct(shard, ctx):
@@ -427,6 +449,7 @@ def plan(tier, seed):
 def gates(c, tier):
     need = {
         "tracked-objects": 1000,
+        "direct:result-born-from-an-edited-scaffold-indexed-again": 1000,
         "premise-figures-checked:start": 200,
         "premise-figures-checked:end": 200,
         "direct:held-premise-consulted-after-an-operation": 5000,
